@@ -701,6 +701,10 @@ VARIANTS = [
      rep_in(FHS, "_write_to_tmp_file_and_get_hex_digests", "            tmp_file_size = os.path.getsize(tmp.name)\n", "            tmp_file_size = os.path.getsize(stream._obj.name)\n")),
     ("C02", "C02.b", "_computehash hands the caller's spelling to hashlib",
      rep_in(FHS, "_computehash", "            check_algorithm = self._clean_algorithm(algorithm)\n            hash_obj = hashlib.new(check_algorithm)\n", "            self._clean_algorithm(algorithm)\n            hash_obj = hashlib.new(algorithm)\n")),
+    ("C13", "C13.c", "failed metadata move: the temp file is removed only when it is NOT there",
+     rep_in(FHS, "_put_metadata", "                if os.path.isfile(metadata_tmp):\n                    # Remove tmp metadata", "                if not os.path.isfile(metadata_tmp):\n                    # Remove tmp metadata")),
+    ("C13", "C13.c", "failed object move: the temp file is left behind",
+     rep_in(FHS, "_move_and_get_checksums", "                    self._delete(\"tmp\", tmp_file_name)\n                    err_msg = (\n                        f\"Object has not been stored for pid", "                    err_msg = (\n                        f\"Object has not been stored for pid")),
     ("C13", "C13.h", "return inside finally swallows the error",
      rep_in(FHS, "_delete_object_only", "        finally:\n            self._release_object_locked_cids(cid)\n", "        finally:\n            self._release_object_locked_cids(cid)\n            return\n")),
 ]
